@@ -83,10 +83,11 @@ class Ctx:
         nob = len(self.obligations)
         ndis = len([o for o in self.obligations if o["ok"]])
         code = 0
-        os.makedirs(os.path.join(VERIF, "replays"), exist_ok=True)
+        rdir = os.path.join(VERIF, "replays") if not getattr(self, "no_evidence", False) else os.path.join(VERIF, ".work", "replays-scratch")
+        os.makedirs(rdir, exist_ok=True)
         for v in self.violations:
             h = hashlib.sha1(v["key"].encode()).hexdigest()[:10]
-            rp = os.path.join(VERIF, "replays", "%s-%s-%s.json" % (self.pid, v["rule"], h))
+            rp = os.path.join(rdir, "%s-%s-%s.json" % (self.pid, v["rule"], h))
             json.dump(v, open(rp, "w"), indent=1, default=str)
             print("%s: %s [%s] %s" % (v["where"] or "?", v["rule"], v["key"], v["message"]))
             print("VIOLATION property=%s replay=%s" % (self.pid, rp))
@@ -95,7 +96,7 @@ class Ctx:
             print("ANALYSIS-BROKEN property=%s rule=%s: %s" % (self.pid, b["rule"], b["message"]))
         if self.brokens and code == 0:
             code = 2
-        if self.replay_only:
+        if self.replay_only or getattr(self, "no_evidence", False):
             return code
         level = self.level
         if code != 0 and level == "proof":
